@@ -210,24 +210,40 @@ func vfC20Run(c vfC20Case, ctx *vfCtx) *vfViolation {
 
 	// ---- k-means --------------------------------------------------------------------
 	orig := vfClone2D(c.Vectors)
-	cents, mapping := KMeans(c.Vectors, c.K, dist, c.MaxIter)
-	if !vfEqual2D(c.Vectors, orig) {
-		return vfFail("KMeans modified its input")
-	}
 	wantK := c.K
 	if wantK > n {
 		wantK = n
 	}
-	if c.K <= 0 {
-		if cents != nil || mapping != nil {
-			return vfFail("KMeans(k=%d) returned %d centroids, want nil", c.K, len(cents))
+	// every clause of the k-means statement, for one entry point (KMeans itself, and KMeansSubspace,
+	// the squared-Euclidean variant used for PQ codebooks)
+	// "nearest": the float64 distance for the Euclidean family (squared or not, same order); for cosine
+	// the library's own 1 - dot, since centroids are means and not unit vectors
+	refDist := func(v, ce []float32) float64 {
+		if kind == Cosine {
+			return float64(dist.Calculate(v, ce))
 		}
-	} else {
+		d := vfRefL2Sq(v, ce)
+		if kind == Euclidean {
+			d = math.Sqrt(d)
+		}
+		return d
+	}
+	checkKMeans := func(name string, distOf Distance, run func(vs [][]float32, maxIter int) ([][]float32, []int)) ([][]float32, []int, *vfViolation) {
+		cents, mapping := run(c.Vectors, c.MaxIter)
+		if !vfEqual2D(c.Vectors, orig) {
+			return nil, nil, vfFail("%s modified its input", name)
+		}
+		if c.K <= 0 {
+			if len(cents) != 0 {
+				return nil, nil, vfFail("%s(k=%d) returned %d centroids, want none", name, c.K, len(cents))
+			}
+			return cents, mapping, nil
+		}
 		if len(cents) != wantK {
-			return vfFail("KMeans(n=%d,k=%d) returned %d centroids, want %d", n, c.K, len(cents), wantK)
+			return nil, nil, vfFail("%s(n=%d,k=%d) returned %d centroids, want %d", name, n, c.K, len(cents), wantK)
 		}
 		if len(mapping) != n {
-			return vfFail("KMeans returned a mapping of length %d for %d vectors", len(mapping), n)
+			return nil, nil, vfFail("%s returned a mapping of length %d for %d vectors", name, len(mapping), n)
 		}
 		lo, hi := make([]float64, dim), make([]float64, dim)
 		var maxAbs float64
@@ -242,26 +258,26 @@ func vfC20Run(c vfC20Case, ctx *vfCtx) *vfViolation {
 		slack := float64(n) * 2 * vfEps32 * maxAbs
 		for ci, ce := range cents {
 			if len(ce) != dim {
-				return vfFail("centroid %d has %d coordinates, want %d", ci, len(ce), dim)
+				return nil, nil, vfFail("%s: centroid %d has %d coordinates, want %d", name, ci, len(ce), dim)
 			}
 			for d, x := range ce {
 				if math.IsNaN(float64(x)) || math.IsInf(float64(x), 0) {
-					return vfFail("centroid %d coordinate %d is %v", ci, d, x)
+					return nil, nil, vfFail("%s: centroid %d coordinate %d is %v", name, ci, d, x)
 				}
 				if kind != Cosine && (float64(x) < lo[d]-slack || float64(x) > hi[d]+slack) {
-					return vfFail("centroid %d coordinate %d = %v lies outside the bounding box [%v,%v] of the training vectors", ci, d, x, lo[d], hi[d])
+					return nil, nil, vfFail("%s: centroid %d coordinate %d = %v lies outside the bounding box [%v,%v] of the training vectors", name, ci, d, x, lo[d], hi[d])
 				}
 			}
 		}
 		for i, m := range mapping {
 			if m < 0 || m >= len(cents) {
-				return vfFail("vector %d is mapped to cluster %d (have %d centroids)", i, m, len(cents))
+				return nil, nil, vfFail("%s: vector %d is mapped to cluster %d (have %d centroids)", name, i, m, len(cents))
 			}
 		}
 		// determinism
-		cents2, mapping2 := KMeans(vfClone2D(c.Vectors), c.K, dist, c.MaxIter)
+		cents2, mapping2 := run(vfClone2D(c.Vectors), c.MaxIter)
 		if !vfEqual2D(cents, cents2) || !vfIntsEqual(mapping, mapping2) {
-			return vfFail("KMeans is not deterministic: two runs on equal input differ")
+			return nil, nil, vfFail("%s is not deterministic: two runs on equal input differ", name)
 		}
 		// converged => every vector sits with a nearest centroid. Convergence is detected
 		// black-box: the outputs for maxIter=T and T+1 are identical.
@@ -269,28 +285,34 @@ func vfC20Run(c vfC20Case, ctx *vfCtx) *vfViolation {
 		if T <= 0 {
 			T = DefaultMaxIter
 		}
-		centsN, mappingN := KMeans(vfClone2D(c.Vectors), c.K, dist, T+1)
+		centsN, mappingN := run(vfClone2D(c.Vectors), T+1)
 		if vfEqual2D(cents, centsN) && vfIntsEqual(mapping, mappingN) {
-			ctx.Class("kmeans_converged")
+			ctx.Class(name + "_converged")
 			for i, v := range c.Vectors {
-				own := float64(dist.Calculate(v, cents[mapping[i]]))
+				own := refDist(v, cents[mapping[i]])
 				for ci := range cents {
-					d := float64(dist.Calculate(v, cents[ci]))
-					tol := 8 * float64(dim+4) * vfEps32 * (math.Abs(d) + math.Abs(own))
+					d := refDist(v, cents[ci])
+					tol := 8 * float64(dim+4) * vfEps32 * (math.Abs(d) + math.Abs(own) + 1e-30)
 					if d+tol < own {
-						return vfFail("converged run (maxIter %d == %d), but vector %d sits in cluster %d at distance %v while centroid %d is at %v", T, T+1, i, mapping[i], own, ci, d)
+						return nil, nil, vfFail("%s: converged run (maxIter %d == %d), but vector %d sits in cluster %d at distance %v while centroid %d is at %v", name, T, T+1, i, mapping[i], own, ci, d)
 					}
 				}
 			}
 		} else {
-			ctx.Class("kmeans_not_converged")
+			ctx.Class(name + "_not_converged")
 		}
-		if kind == L2Squared {
-			cs, ms := KMeansSubspace(vfClone2D(c.Vectors), c.K, c.MaxIter)
-			if !vfEqual2D(cents, cs) || !vfIntsEqual(mapping, ms) {
-				return vfFail("KMeansSubspace differs from KMeans with squared-Euclidean distance")
-			}
+		return cents, mapping, nil
+	}
+	cents, _, v := checkKMeans("KMeans", dist, func(vs [][]float32, maxIter int) ([][]float32, []int) { return KMeans(vs, c.K, dist, maxIter) })
+	if v != nil {
+		return v
+	}
+	if kind == L2Squared {
+		if _, _, v := checkKMeans("KMeansSubspace", dist, func(vs [][]float32, maxIter int) ([][]float32, []int) { return KMeansSubspace(vs, c.K, maxIter) }); v != nil {
+			return v
 		}
+	}
+	if c.K > 0 {
 		// FindNearestCentroidIndex returns an arg-min
 		for qi, q := range c.Queries {
 			got := FindNearestCentroidIndex(q, cents, dist)
@@ -305,8 +327,8 @@ func vfC20Run(c vfC20Case, ctx *vfCtx) *vfViolation {
 			}
 		}
 	}
-	if ce, mp := KMeans(nil, 3, dist, 5); ce != nil || mp != nil {
-		return vfFail("KMeans on no vectors returned something")
+	if ce, _ := KMeans(nil, 3, dist, 5); len(ce) != 0 {
+		return vfFail("KMeans on no vectors returned %d centroids", len(ce))
 	}
 
 	// ---- training an index twice gives search-identical indexes ---------------------
@@ -397,15 +419,6 @@ func vfC20Run(c vfC20Case, ctx *vfCtx) *vfViolation {
 		if !vfBitsEqual(out, v) || !vfBitsEqual(in, v) {
 			return vfFail("float32 quantiser does not round-trip exactly / modified its input")
 		}
-		if s, ok := st.([]float32); ok && len(s) > 0 {
-			s[0] += 1
-			if !vfBitsEqual(in, v) {
-				return vfFail("float32 quantiser's stored form aliases the input")
-			}
-		}
-		if _, err := fq.Dequantize([]int8{1}); err == nil {
-			return vfFail("float32 Dequantize accepted a wrong stored type")
-		}
 	}
 	if len(c.Half) > 0 {
 		hq, err := NewQuantizer(HalfPrecision)
@@ -432,10 +445,39 @@ func vfC20Run(c vfC20Case, ctx *vfCtx) *vfViolation {
 				return vfFail("float16 round trip of %v gives %v (more than half an ulp of half precision)", x, out[i])
 			}
 		}
-		if _, err := hq.Dequantize([]float32{1}); err == nil {
-			return vfFail("float16 Dequantize accepted a wrong stored type")
-		}
 		ctx.ClassIf(len(c.Half) >= 2, "half_precision_round_trip")
+	}
+	if q, err := NewQuantizer(Int8Precision); err != nil || q == nil {
+		return vfFail("NewQuantizer(int8): %v", err)
+	} else if _, err := q.Quantize([]float32{0.5}); err == nil {
+		return vfFail("an int8 quantiser from NewQuantizer quantises before training")
+	}
+	// two quantisers from the factory are independent: training one neither trains the other nor
+	// changes a range the other was trained with
+	if qa, _ := NewQuantizer(Int8Precision); qa != nil {
+		qb, _ := NewQuantizer(Int8Precision)
+		a8, okA := qa.(*Int8Quantizer)
+		b8, okB := qb.(*Int8Quantizer)
+		if okA && okB {
+			a8.Train([][]float32{{4}})
+			if _, err := b8.Quantize([]float32{0.5}); err == nil {
+				return vfFail("an int8 quantiser fresh from NewQuantizer quantises after ANOTHER quantiser was trained")
+			}
+			b8.Train([][]float32{{1000}})
+			st, err := a8.Quantize([]float32{4, -2, 1})
+			if err != nil {
+				return vfFail("int8 Quantize: %v", err)
+			}
+			out, err := a8.Dequantize(st)
+			if err != nil || len(out) != 3 {
+				return vfFail("int8 Dequantize: %v (%d values)", err, len(out))
+			}
+			for i, want := range []float64{4, -2, 1} {
+				if math.Abs(float64(out[i])-want) > 4.0/254+1e-5 {
+					return vfFail("int8 quantiser trained on range 4 reconstructs %v as %v after another quantiser was trained on range 1000", want, out[i])
+				}
+			}
+		}
 	}
 	q8 := &Int8Quantizer{}
 	if q8.IsTrained() {
@@ -462,18 +504,16 @@ func vfC20Run(c vfC20Case, ctx *vfCtx) *vfViolation {
 					}
 				}
 			}
-			if q8.GetAbsMax() != want {
-				return vfFail("int8 Train: absMax %v, want %v", q8.GetAbsMax(), want)
+			// the trained range must cover the training data (how much wider it is is not stated)
+			if got := q8.GetAbsMax(); got < want || math.IsNaN(float64(got)) || math.IsInf(float64(got), 0) {
+				return vfFail("int8 Train: absMax %v does not cover the training data (largest magnitude %v)", got, want)
 			}
 		} else if rd.AbsMax > 0 {
 			q8.SetAbsMax(rd.AbsMax)
 		}
 		am := float64(q8.GetAbsMax())
 		if am == 0 {
-			if _, err := q8.Quantize([]float32{0}); err == nil {
-				return vfFail("int8 quantiser trained on zeros (absMax 0) still quantises")
-			}
-			continue
+			continue // trained on zeros only: no value range to check (refusing or mapping 0 to 0 are both fine)
 		}
 		in := make([]float32, len(rd.Frac))
 		for i, f := range rd.Frac {
@@ -503,13 +543,7 @@ func vfC20Run(c vfC20Case, ctx *vfCtx) *vfViolation {
 				return vfFail("int8 round %d: %v -> %v, error above absMax/254 = %v (absMax %v)", ri, in[i], out[i], am/254, am)
 			}
 		}
-		if _, err := q8.Dequantize([]uint16{1}); err == nil {
-			return vfFail("int8 Dequantize accepted a wrong stored type")
-		}
 		ctx.ClassIf(ri > 0, "int8_retrained_instance")
-	}
-	if _, err := NewQuantizer("nope"); err == nil {
-		return vfFail("NewQuantizer accepted an unknown type")
 	}
 	return nil
 }
